@@ -17,7 +17,7 @@ from flipjump.utils.constants import (
     DEFAULT_MAX_MACRO_RECURSION_DEPTH,
     GAP_BETWEEN_PYTHONS_AND_PREPROCESSOR_MACRO_RECURSION_DEPTH,
 )
-from flipjump.utils.exceptions import FlipJumpPreprocessorException, FlipJumpExprException
+from flipjump.utils.exceptions import FlipJumpPreprocessorException, FlipJumpExprException, FlipJumpAssemblerException
 from flipjump.assembler.inner_classes.expr import Expr
 from flipjump.assembler.inner_classes.ops import (
     FlipJump,
@@ -215,7 +215,19 @@ class PreprocessorData:
             )
         ops_to_pad = (-self.curr_address // op_size) % ops_alignment
         self.curr_address += ops_to_pad * op_size
+        self.assert_current_address_in_memory()
         self.result_ops.append(Padding(ops_to_pad))
+
+    def assert_current_address_in_memory(self) -> None:
+        """
+        fail as soon as the program no longer fits the memory, instead of generating ops (or padding) that can't be
+        placed anyway - e.g. a huge 'pad' / 'rep' would otherwise keep the assembler busy (nearly) forever.
+        """
+        if self.curr_address > (1 << self.memory_width):
+            raise FlipJumpAssemblerException(
+                f"Not enough space with the {self.memory_width}-bits memory-width "
+                f"(the code reached address {hex(self.curr_address)})."
+            )
 
 
 def get_rep_times(op: RepCall, preprocessor_data: PreprocessorData) -> int:
@@ -327,6 +339,7 @@ def resolve_macro_aux(
 
         elif isinstance(op, FlipJump) or isinstance(op, WordFlip):
             preprocessor_data.curr_address += 2 * preprocessor_data.memory_width
+            preprocessor_data.assert_current_address_in_memory()
             params_dict['$'] = Expr(preprocessor_data.curr_address)
             preprocessor_data.result_ops.append(op.eval_new(params_dict))
             del params_dict['$']
